@@ -379,7 +379,7 @@ func genPipe(rt *rapid.T, tier string, op pipeGenOpts) *PipeCase {
 	r := rapidRnd{rt}
 	pc := &PipeCase{}
 	pc.Algo = rapid.SampledFrom(op.algos).Draw(rt, "algo")
-	ntax := rapid.IntRange(op.minTax, op.maxTax).Draw(rt, "ntax")
+	ntax := drawTaxa(rt, op.minTax, op.maxTax)
 	tx := taxa(ntax, "t")
 	maxdeg := rapid.IntRange(2, 4).Draw(rt, "maxdeg")
 	base := RandomTree(tx, r, maxdeg, true)
